@@ -26,7 +26,7 @@ import properties as P      # noqa: E402
 
 REPO = os.environ.get('VERIF_REPO', '/repo')
 SPECS = os.path.join(ROOT, 'specs')
-WORK = os.path.join(ROOT, 'work')
+WORK = os.environ.get('VERIF_WORK') or os.path.join(ROOT, 'work')
 EVID = os.environ.get('VERIF_EVIDENCE_DIR') or os.path.join(ROOT, 'evidence')   # try_mutant.sh points this at work/ so runs on a changed tree never overwrite committed evidence
 KNOWN = os.path.join(ROOT, 'known_findings.txt')
 
@@ -416,6 +416,8 @@ def write_replay(pid, name, f, res):
 
 def witness_search(pid, f):
     """Concrete witness search on the real crate, when one is registered for the obligation."""
+    if os.environ.get('VERIF_NO_WITNESS'):      # regression sweeps on scratch worktrees: the replay crate is built against /repo
+        return None
     for pat, cmd in getattr(P, 'WITNESS', {}).items():
         if re.search(pat, f['obligation'] or ''):
             try:
